@@ -135,3 +135,73 @@ def nontrivial(r):
     has_stop = any(o["op"] == "sch" and o.get("stop") for o in r["scn"]["ops"])
     ran = any(ob.get("invoked") for ob in r["obs"] if isinstance(ob, dict))
     return has_stop and (ran or "never-registered-or-retired-before-running" in classes(r))
+
+
+# ---- overlapping exec_jobs callers (threading): the stop also holds when several threads poll at once - a job selected by
+# ---- one call and meanwhile run for its last occurrence (and retired) by another must not be run again beyond its stop
+from . import c14 as _c14  # noqa: E402
+
+_seq = {k: globals()[k] for k in ("scenarios", "runner", "specs", "classes", "nontrivial")}
+_S = 1_000_000
+
+
+def _conc_scenario(rng):
+    scn = _c14.gen_scenario(rng, {"p_exec_heavy": 1.0, "p_batched": 0.0})
+    for j in scn["jobs"]:
+        # a cyclic job whose window holds exactly one or two occurrences, the first of them overdue when the callers start
+        T = rng.choice([1, 1, 2]) * _S
+        j.update({"call": 0, "timings": [["c", T]], "stop": [scn["clock0"] + rng.choice([1, 1, 2]) * T + rng.choice([0, T // 2]), None]})
+        j.pop("raises", None)
+    scn["advance"] = rng.choice([2, 2, 3]) * _S
+    for ops in scn["threads"]:
+        for o in ops:
+            if o["op"] == "exec":
+                o["force"] = False
+    if rng.random() < 0.5:
+        scn["sched"] = {"kind": "pause", "victim": rng.randrange(len(scn["threads"])), "at": rng.randint(0, 40), "seed": rng.randrange(10**9)}
+    scn["kind"] = "conc"
+    return scn
+
+
+def scenarios(rng, n, tier):  # noqa: F811
+    for scn in _seq["scenarios"](rng, n, tier):
+        yield _conc_scenario(rng) if rng.random() < 0.08 else scn
+
+
+def runner(scn):  # noqa: F811
+    return _c14.runner(scn) if scn.get("kind") == "conc" else _seq["runner"](scn)
+
+
+def specs(r):  # noqa: F811
+    if r["scn"].get("kind") != "conc":
+        return _seq["specs"](r)
+    out = r["obs"][0]
+    qs = []
+    if out.get("uncontrollable"):
+        return qs
+    if out.get("deadlock") or out.get("error"):
+        qs.append(("spec eq 0 1", {"what": "overlapping callers: deadlock or a thread died", "detail": out.get("deadlock") or out.get("error")}))
+        return qs
+    stops = {int(k): v for k, v in (out.get("stops") or {}).items()}
+    for (k, due) in out.get("inv_dues") or []:
+        if due is not None and stops.get(k) is not None:
+            qs.append((f"spec le {due} {stops[k]}", {"what": "overlapping callers: every invocation belongs to a due time <= stop", "key": k, "due": due, "stop": stops[k]}))
+    for k, v in (out.get("jobs") or {}).items():
+        if stops.get(k) is not None and k in (out.get("final") or []):
+            qs.append((f"spec le {v[4]} {stops[k]}", {"what": "overlapping callers: a registered job's due time is <= stop", "key": k}))
+    return qs
+
+
+def classes(r):  # noqa: F811
+    return ["kind:overlapping-callers"] if r["scn"].get("kind") == "conc" else _seq["classes"](r)
+
+
+def nontrivial(r):  # noqa: F811
+    if r["scn"].get("kind") == "conc":
+        return len(r["obs"][0].get("invocations", [])) > 0
+    return _seq["nontrivial"](r)
+
+
+RULE += ("; 8% of the scenarios are overlapping exec_jobs callers (2-3 controlled threads, thread switches at every source line of the "
+         "execution path, half of them with one long preemption) on jobs whose window holds one or two occurrences: every invocation "
+         "belongs to a due time <= stop, also for a job that another caller retired meanwhile")
